@@ -78,6 +78,26 @@ class C20:
                     ops.append({"op": "handle", "n": rng.choice(NAMES), "layer": rich_layer(rng)})
             h = C02P.to_harness({"id": 0, "names": NAMES, "ops": ops})
             cases.append({"kind": 2, "names": h["names"], "ops": h["ops"], "probes": PROBES})
+        # designed histories: the same exec.d program names written again with other content, over a kept restored
+        # layer (struct API) and through an update (trait API) -- what ends up in exec.d is a function of the
+        # content handed over, not of when the files were written
+        def keep_req(progs):
+            return {"op": "req", "n": "a", "q": {"kind": "cached", "launch": True, "build": False, "m": "G",
+                                                 "inv": {"d": "delete", "cause": 1}, "res": {"d": "keep", "cause": 2}},
+                    "writes": [{"w": "execd", "progs": [[bl(k), [0o755, bl(v)]] for k, v in progs]}]}
+        hist = [keep_req([("p1", "#!/bin/sh\necho v1\n"), ("x.sh", "one")]), {"op": "restore"},
+                keep_req([("p1", "#!/bin/sh\necho v2\n"), ("x.sh", "two")])]
+        h = C01P.to_harness({"id": 0, "names": NAMES, "ops": hist})
+        cases.append({"kind": 1, "names": h["names"], "ops": h["ops"], "probes": PROBES})
+
+        def upd_layer(content):
+            res = {"md": {"version": "1"}, "env": [], "execd": [[bl("p1"), [0o755, bl(content)]]], "sboms": [], "files": []}
+            return {"types": {"launch": True, "build": False, "cache": True}, "m": "G", "strategy": "update", "migrate": {"d": "recreate"},
+                    "create": res, "update": res}
+        ops = [{"op": "handle", "n": "c", "layer": upd_layer("old program")}, {"op": "restore"},
+               {"op": "handle", "n": "c", "layer": upd_layer("new program")}]
+        h = C02P.to_harness({"id": 0, "names": NAMES, "ops": ops})
+        cases.append({"kind": 2, "names": h["names"], "ops": h["ops"], "probes": PROBES})
         subsets = [["cdx", "spdx", "syft"], ["syft"], []]
         for la, st, bs, ls in itertools.product([True, False], [True, False], subsets, subsets):
             cases.append({"kind": 5, "cfg": base_cfg(exe="build", nargs=3, store="ok", pre=True,
